@@ -18,7 +18,7 @@ rm -f $W/resulttable
 echo "$(basename $D): demo clean=$C0 patched=$C1; suite: $T"
 cd $V
 for c in $CHECKS; do for s in 0 1; do
-  VERIF_REPO=$W VERIF_SEED=$s VERIF_PROCS=4 ./check $c --tier quick > /tmp/seed/check_$(basename $D)_${c}_$s.log 2>&1; rc=$?
+  VERIF_EVIDENCE_DIR=/tmp/seed/evidence_$(basename $D) VERIF_REPLAY_DIR=/tmp/seed/replays_$(basename $D) VERIF_REPO=$W VERIF_SEED=$s VERIF_PROCS=4 ./check $c --tier quick > /tmp/seed/check_$(basename $D)_${c}_$s.log 2>&1; rc=$?
   echo "  $(basename $D) check $c seed $s rc=$rc: $(grep -m1 'VIOLATION' /tmp/seed/check_$(basename $D)_${c}_$s.log | cut -c1-110) | $(grep -m1 'failing input\|no longer checks' /tmp/seed/check_$(basename $D)_${c}_$s.log | cut -c1-240)"
 done; done
 git -C /repo worktree remove --force $W
